@@ -85,6 +85,7 @@ type FnCtx struct {
 	callSites int
 	og        *ogSpec
 	opKeys    map[ssa.Instruction]string
+	deadBlocks []*ssa.BasicBlock
 	ogResultTypes map[string]types.Type
 	decided   []*OblResult
 	doneChans []Term
@@ -525,7 +526,21 @@ func (c *FnCtx) runFunction(fr *Frame, entry *State) {
 			fmt.Fprintf(os.Stderr, "block %d (%s): %d incoming, pc=%s\n", b.Index, b.Comment, len(ins), st.pc.S)
 		}
 		if st.pc.IsFalse() {
+			if fr.depth == 0 && blockCovers() {
+				c.deadBlocks = append(c.deadBlocks, b)
+			}
 			continue
+		}
+		if fr.depth == 0 && blockCovers() && c.inSpec == 0 && !selectPanicBlock(b) {
+			// reachability cover per basic block (thorough tier / GOVC_BLOCK_COVERS): a block the
+			// model cannot reach makes every clause checked in it vacuous
+			saved := c.curInstr
+			if len(b.Instrs) > 0 {
+				c.curInstr = b.Instrs[0]
+			}
+			cv := c.addObl("vacuity", fmt.Sprintf("block:%d", b.Index), nil, st, TFalse, nil)
+			cv.Kind = "cover"
+			c.curInstr = saved
 		}
 		if li := loops[b]; li != nil {
 			// invariant on entry
@@ -538,6 +553,30 @@ func (c *FnCtx) runFunction(fr *Frame, entry *State) {
 		c.execBlock(fr, st, b, loops, in)
 	}
 }
+
+// selectPanicBlock: the compiler-generated "blocking select matched no case" block.
+func selectPanicBlock(b *ssa.BasicBlock) bool {
+	if len(b.Instrs) == 0 {
+		return false
+	}
+	p, ok := b.Instrs[len(b.Instrs)-1].(*ssa.Panic)
+	if !ok {
+		return false
+	}
+	if mi, ok := p.X.(*ssa.MakeInterface); ok {
+		if k, ok := mi.X.(*ssa.Const); ok && k.Value != nil && strings.Contains(k.Value.ExactString(), "blocking select matched no case") {
+			return true
+		}
+	}
+	return false
+}
+
+// blockCovers: per-block reachability covers are generated in the thorough tier (and on demand).
+func blockCovers() bool {
+	return os.Getenv("GOVC_BLOCK_COVERS") != "" || govcTier == "thorough"
+}
+
+var govcTier string
 
 func innermostLoop(loops map[*ssa.BasicBlock]*loopInfo, b *ssa.BasicBlock) *loopInfo {
 	var best *loopInfo
